@@ -192,12 +192,12 @@ Definition dimension (t : ltype) : nat :=
 Definition group_of (g : nat) : ltype := match g with 0 => SO3_t | 1 => SE3_t | 2 => RxSO3_t | _ => Sim3_t end.
 Definition algebra_of (g : nat) : ltype := match g with 0 => so3_t | 1 => se3_t | 2 => rxso3_t | _ => sim3_t end.
 (* op codes as in Model/LieGroup.v (0 Mul 1 Inv 2 Act 3 Act4 4 matrix 6 rotation 7 translation 8 scale
-   9 Adj 10 AdjT) plus 11 Retr, 12 Exp (of the algebra), 13 Log.  None = plain torch.Tensor *)
+   9 Adj 10 AdjT) plus 11 Retr, 12 Exp (of the algebra), 13 Log, 14 Jinvp.  None = plain torch.Tensor *)
 Definition result_ltype (g op : nat) : option ltype :=
   match op with
   | 0 | 1 | 11 | 12 => Some (group_of g)
   | 6 => Some SO3_t
-  | 9 | 10 | 13 => Some (algebra_of g)
+  | 9 | 10 | 13 | 14 => Some (algebra_of g)
   | _ => None
   end.
 
@@ -315,3 +315,15 @@ Definition tf_case := (nat * option string * option (list leaf) * list ltype * t
 Definition tf_bad (cs : list tf_case) : list nat :=
   map (fun c => match c with (i, _, _, _, _) => i end)
       (filter (fun c => match c with (_, n, d, lts, r) => negb (tf_eqb (torch_function n d lts) r) end) cs).
+
+(* documented result type of every operation: (index, group, op, observed ltype code or None = Tensor);
+   codes 0 SO3 1 SE3 2 RxSO3 3 Sim3 4 so3 5 se3 6 rxso3 7 sim3 *)
+Definition ltype_of_code (n : nat) : ltype :=
+  match n with 0 => SO3_t | 1 => SE3_t | 2 => RxSO3_t | 3 => Sim3_t | 4 => so3_t | 5 => se3_t | 6 => rxso3_t | _ => sim3_t end.
+Definition ltype_bad (cs : list (nat * nat * nat * option nat)) : list nat :=
+  map (fun c => match c with (i, _, _, _) => i end)
+      (filter (fun c => match c with (_, g, op, obs) =>
+                 negb (match result_ltype g op, obs with
+                       | None, None => true
+                       | Some t, Some n => ltype_eqb t (ltype_of_code n)
+                       | _, _ => false end) end) cs).
